@@ -1,6 +1,6 @@
 from __future__ import annotations
 import typing
-from types import CodeType
+from types import CodeType, FunctionType
 
 import sympy
 from structlog import get_logger
@@ -75,9 +75,20 @@ def get_scheme(scheme: str) -> scheme_func:
             stacklevel=3,
         )
 
-    # Replace the name of the function
-    func.__code__ = func.__code__.replace(co_name=scheme)
-    return func
+    # Return a copy of the function with the requested name. The shared function
+    # object is left untouched, otherwise a function handed out earlier under
+    # another name would change its name too.
+    new_func = FunctionType(
+        func.__code__.replace(co_name=scheme),
+        func.__globals__,
+        name=scheme,
+        argdefs=func.__defaults__,
+        closure=func.__closure__,
+    )
+    new_func.__kwdefaults__ = func.__kwdefaults__
+    new_func.__doc__ = func.__doc__
+    new_func.__annotations__ = func.__annotations__
+    return new_func
 
 
 def list_schemes() -> list[str]:
